@@ -1,7 +1,7 @@
 (** The C07 theorems, derived from the inductive invariant of JcInv.v.  Everything here is
     for every N in the representable range, every number of threads and every schedule
     ([jc_reachable] = reachable from an initial state by any sequence of enabled steps). *)
-From Coq Require Import ZArith List Bool Lia Permutation String.
+From Coq Require Import ZArith List Bool Lia Permutation.
 From MT Require Import Lib.Interleave JoinCounter.JcModel JoinCounter.JcProofs JoinCounter.JcInv.
 Import ListNotations.
 Local Open Scope Z_scope.
@@ -13,7 +13,142 @@ Lemma high_eq s : Inv s -> high s = nreg s.
 Proof. intros (G & _). unfold high, high_of. apply high_is_reg. exact G. Qed.
 
 (* ------------------------------------------------------------------------------------ *)
-(** * C07_inv_reachable *)
+(** * what a step does to the thread table and to the ghost counters (no invariant needed) *)
+
+Lemma upd_id {A} (l : list A) t x : nth_error l t = Some x -> upd l t x = l.
+Proof.
+  revert t. induction l as [|y r IH]; intros t H; destruct t as [|j]; cbn in *; try discriminate.
+  - inversion H; subst. reflexivity.
+  - rewrite (IH j H). reflexivity.
+Qed.
+
+(** every step rewrites the actor's entry; a push additionally turns the pushed thread from
+    [Susp] to [WRead] *)
+Lemma step_shape s t e s' : step s (t, e) = Some s' ->
+  exists tht, get_thread s t = Some tht /\
+   ((exists th', thr s' = upd (thr s) t th' /\ (main tht = Susp -> main th' = Susp)) \/
+    (exists n i x0 r thx th', e = ETick /\ main tht = KPush n i (x0 :: r) /\
+        get_thread s x0 = Some thx /\ main thx = Susp /\ x0 <> t /\
+        thr s' = upd (upd (thr s) x0 (set_main thx WRead)) t th')).
+Proof.
+  intros Hst. destruct e as [o | | | v]; cbn [step] in Hst.
+  - unfold call in Hst. destruct (get_thread s t) as [th|] eqn:Hg; [|discriminate].
+    exists th. split; [reflexivity|]. left.
+    destruct (main th) eqn:Hm; try discriminate. destruct (cb th); try discriminate.
+    destruct o; inversion Hst; subst s'; eexists; (split; [reflexivity | intros; discriminate]).
+  - unfold tick in Hst. destruct (get_thread s t) as [th|] eqn:Hg; [|discriminate].
+    exists th. split; [reflexivity|].
+    destruct (main th) eqn:Hm; try discriminate.
+    + left. destruct (low_of s (word s) =? jn s); unfold put in Hst; rewrite Hg in Hst;
+        inversion Hst; subst s'; eexists; (split; [reflexivity | intros; discriminate]).
+    + left. destruct (word s =? s0).
+      * inversion Hst; subst s'. eexists. split; [reflexivity | intros; discriminate].
+      * unfold put in Hst; rewrite Hg in Hst. inversion Hst; subst s'. eexists. split; [reflexivity | intros; discriminate].
+    + left. destruct (low_of s (word s) >=? jn s); unfold put in Hst; rewrite Hg in Hst;
+        inversion Hst; subst s'; eexists; (split; [reflexivity | intros; discriminate]).
+    + left. destruct (word s =? s0).
+      * destruct (low_of s s0 =? jn s - 1); [destruct (0 <? high_of s s0)|];
+          unfold put in Hst; norm_get Hst s t; rewrite Hg in Hst; inversion Hst; subst s';
+          eexists; (split; [reflexivity | intros; discriminate]).
+      * unfold put in Hst; rewrite Hg in Hst. inversion Hst; subst s'. eexists. split; [reflexivity | intros; discriminate].
+    + left. destruct (sq s) as [|x r].
+      * inversion Hst; subst s'. exists th. split; [|intros Hs; discriminate].
+        symmetry. apply upd_id. exact Hg.
+      * destruct (i + 1 <? n); unfold put in Hst; norm_get Hst s t; rewrite Hg in Hst;
+          inversion Hst; subst s'; eexists; (split; [reflexivity | intros; discriminate]).
+    + right. destruct rest as [|x r]; [discriminate|].
+      unfold wake in Hst. destruct (get_thread s x) as [thx|] eqn:Hgx; [|discriminate].
+      destruct (main thx) eqn:Hmx; try discriminate.
+      assert (Hxt : x <> t).
+      { intros e. subst x. rewrite Hg in Hgx. inversion Hgx; subst thx. rewrite Hm in Hmx. discriminate. }
+      assert (Hg1 : nth_error (upd (thr s) x (set_main thx WRead)) t = Some th).
+      { rewrite nth_upd_other by exact Hxt. exact Hg. }
+      destruct (i + 1 <? n); unfold put in Hst;
+        change (get_thread (g_push (set_thread s x (set_main thx WRead))) t)
+          with (nth_error (upd (thr s) x (set_main thx WRead)) t) in Hst;
+        rewrite Hg1 in Hst; inversion Hst; subst s';
+        exists n, i, x, r, thx; eexists; repeat split; try reflexivity; assumption.
+  - unfold cbtick in Hst. destruct (get_thread s t) as [th|] eqn:Hg; [|discriminate].
+    exists th. split; [reflexivity|]. left. destruct (cb th); [discriminate|].
+    inversion Hst; subst s'. eexists. split; [reflexivity | intros H; exact H].
+  - unfold ret in Hst. destruct (ret_ok s t v) eqn:Hr; [|discriminate].
+    unfold ret_ok in Hr. destruct (get_thread s t) as [th|] eqn:Hg; [|discriminate].
+    exists th. split; [reflexivity|]. left. destruct (main th) eqn:Hm; try discriminate.
+    inversion Hst; subst s'. eexists. split; [reflexivity | intros; discriminate].
+Qed.
+
+(** a thread other than the actor is unchanged unless it is the suspended thread being pushed *)
+Lemma step_other s u e s' t th : step s (u, e) = Some s' -> u <> t ->
+  get_thread s t = Some th ->
+  get_thread s' t = Some th \/
+  (main th = Susp /\ get_thread s' t = Some (set_main th WRead) /\ e = ETick /\
+   exists thu n i r, get_thread s u = Some thu /\ main thu = KPush n i (t :: r)).
+Proof.
+  intros Hst Hne Hg. destruct (step_shape s u e s' Hst) as (thu & Hgu & [(th' & Et & _) | Hpush]).
+  - left. unfold get_thread. rewrite Et. rewrite nth_upd_other by exact Hne. exact Hg.
+  - destruct Hpush as (n & i & x0 & r & thx & th' & He & Hm & Hgx & Hmx & Hx0 & Et).
+    destruct (Nat.eq_dec x0 t) as [e0|ne0].
+    + subst x0. right. rewrite Hg in Hgx. inversion Hgx; subst thx. split; [exact Hmx|].
+      split.
+      * unfold get_thread. rewrite Et. rewrite nth_upd_other by exact Hne.
+        apply (nth_upd_same _ _ _ th). exact Hg.
+      * split; [exact He|]. exists thu, n, i, r. split; assumption.
+    + left. unfold get_thread. rewrite Et. rewrite !nth_upd_other by auto. exact Hg.
+Qed.
+
+(** a suspended thread does not leave [Susp] by a step of its own *)
+Lemma step_self_susp s t e s' th : step s (t, e) = Some s' -> get_thread s t = Some th ->
+  main th = Susp -> exists th', get_thread s' t = Some th' /\ main th' = Susp.
+Proof.
+  intros Hst Hg Hm. destruct (step_shape s t e s' Hst) as (tht & Hgt & [(th' & Et & Hk) | Hpush]).
+  - rewrite Hg in Hgt. inversion Hgt; subst tht. exists th'. split; [|apply Hk; exact Hm].
+    unfold get_thread. rewrite Et. apply (nth_upd_same _ _ _ th). exact Hg.
+  - destruct Hpush as (n & i & x0 & r & thx & th' & _ & Hm' & _).
+    rewrite Hg in Hgt. inversion Hgt; subst tht. rewrite Hm in Hm'. discriminate.
+Qed.
+
+Ltac bm H :=
+  repeat match type of H with
+         | context [match ?x with _ => _ end] => destruct x eqn:?; try discriminate H
+         end.
+
+Lemma wake_fields s x s1 : wake s x = Some s1 ->
+  jn s1 = jn s /\ jbits s1 = jbits s /\ jmask s1 = jmask s /\ gh s1 = gh s /\
+  length (thr s1) = length (thr s).
+Proof.
+  unfold wake. intros H. bm H; inversion H; subst s1. sred. rewrite upd_length. repeat split; reflexivity.
+Qed.
+
+(** the parameters never change; the ghost counters only grow *)
+Lemma step_mono s a s' : step s a = Some s' ->
+  jn s' = jn s /\ jbits s' = jbits s /\ jmask s' = jmask s /\
+  gD s <= gD s' /\ gU s <= gU s' /\ gC s <= gC s' /\ length (thr s') = length (thr s).
+Proof.
+  intros H. destruct a as [t e]. destruct e as [o | | | v]; cbn [step] in H.
+  - unfold call in H. bm H; inversion H; subst s'; unfold gD, gU, gC; sred; rewrite ?upd_length;
+      repeat split; try reflexivity; lia.
+  - unfold tick, put in H. bm H; inversion H; subst s'; unfold gD, gU, gC; sred; rewrite ?upd_length;
+      try (match goal with
+           | Hw : wake _ _ = Some _ |- _ =>
+               destruct (wake_fields _ _ _ Hw) as (W1 & W2 & W3 & W4 & W5); rewrite W1, W2, W3, W4, W5
+           end);
+      repeat split; try reflexivity; lia.
+  - unfold cbtick in H. bm H; inversion H; subst s'; unfold gD, gU, gC; sred; rewrite ?upd_length;
+      repeat split; try reflexivity; lia.
+  - unfold ret in H. bm H; inversion H; subst s'; unfold gD, gU, gC; sred; rewrite ?upd_length;
+      repeat split; try reflexivity; lia.
+Qed.
+
+Lemma gU_nonneg s : jc_reachable s -> 0 <= gU s.
+Proof.
+  revert s. apply (@invariant_rule state (nat * ev) jc_initial step (fun s => 0 <= gU s)).
+  - intros s0 (n & nt & _ & Hi). unfold init_state in Hi. destruct (jc_init n); [|discriminate].
+    inversion Hi; subst s0. unfold gU. cbn. lia.
+  - intros s0 a s1 H0 Hst. pose proof (step_mono s0 a s1 Hst). lia.
+Qed.
+
+(* ------------------------------------------------------------------------------------ *)
+(** * C07_inv_reachable: the packed word counts what it should *)
 
 Theorem inv_summary s : jc_reachable s ->
   low s = gD s /\ 0 <= gD s <= jn s /\
@@ -23,18 +158,347 @@ Theorem inv_summary s : jc_reachable s ->
   (forall t th s0, get_thread s t = Some th -> main th = WCas s0 -> low s = jn s -> word s <> s0).
 Proof.
   intros Hr. pose proof (inv_reachable s Hr) as HI. pose proof HI as (G & T).
-  split; [apply low_eq; exact HI|]. split; [apply (g_dec s G)|].
-  split; [apply high_eq; exact HI|]. split; [apply (g_count s G)|].
+  split; [apply low_eq; exact HI|]. split; [apply (iv_dec s G)|].
+  split; [apply high_eq; exact HI|]. split; [apply (iv_count s G)|].
   split; [apply sumf_nonneg; intros x; apply pendz_bounds|].
-  split.
-  - destruct (gF s) as [f|] eqn:EF.
-    + destruct (g_final s G f EF) as (_ & th & _ & Hph). unfold fphase in Hph.
-      pose proof (nreg_bounds s). destruct (main th); try lia.
-      destruct (T f th) as (_ & _ & _ & T4).
-      { destruct (g_final s G f EF) as (_ & th' & Hg' & _). admit. }
-      admit.
-    + destruct (g_nofinal s G EF) as (H0 & _). lia.
-  - intros t th s0 Hg Hm Hlow Hw. destruct (T t th Hg) as (_ & _ & _ & T4).
-    unfold tloc in T4. rewrite Hm in T4. destruct T4 as (Hne & _).
-    apply Hne. rewrite <- Hw. exact Hlow.
-Abort.
+  split; [apply gU_nonneg; exact Hr|].
+  intros t th s0 Hg Hm Hlow Hw. destruct (T t th Hg) as (_ & _ & _ & T4).
+  unfold tloc in T4. rewrite Hm in T4. destruct T4 as (Hne & _).
+  apply Hne. rewrite <- Hw. exact Hlow.
+Qed.
+
+(* ------------------------------------------------------------------------------------ *)
+(** * C07_no_early_release *)
+
+(** a completed Wait returned 0 and all N decrements have been performed *)
+Theorem wait_done_after_n s t th r : jc_reachable s ->
+  get_thread s t = Some th -> main th = Done Wait r ->
+  r = 0 /\ low s = jn s /\ gD s = jn s.
+Proof.
+  intros Hr Hg Hm. pose proof (inv_reachable s Hr) as HI. destruct HI as (G & T).
+  destruct (T t th Hg) as (_ & _ & _ & T4). unfold tloc in T4. rewrite Hm in T4.
+  destruct T4 as (H0 & HD). split; [exact H0|]. split; [|exact HD].
+  rewrite (low_eq s (conj G T)). exact HD.
+Qed.
+
+(** whoever is inside the wake-up loops is the N-th decrementer, after its CAS *)
+Theorem waker_after_n s t th : jc_reachable s ->
+  get_thread s t = Some th -> waker (main th) = true ->
+  low s = jn s /\ gD s = jn s /\ gF s = Some t.
+Proof.
+  intros Hr Hg Hw. pose proof (inv_reachable s Hr) as HI. pose proof HI as (G & T).
+  destruct (T t th Hg) as (_ & _ & _ & T4). unfold tloc in T4.
+  assert (HF : gF s = Some t).
+  { destruct (main th); try discriminate; destruct T4 as (a & _); exact a. }
+  destruct (iv_final s G t HF) as (HD & _).
+  split; [rewrite (low_eq s HI); exact HD|]. split; [exact HD | exact HF].
+Qed.
+
+(** a suspended thread stops being suspended only by a wakemany.push step of the N-th
+    decrementer, i.e. when the low field already equals N *)
+Theorem wake_only_by_final s a s' x th th' : jc_reachable s -> step s a = Some s' ->
+  get_thread s x = Some th -> main th = Susp ->
+  get_thread s' x = Some th' -> main th' <> Susp ->
+  low s = jn s /\ gD s = jn s /\ main th' = WRead /\
+  exists t tht n i r, a = (t, ETick) /\ get_thread s t = Some tht /\ main tht = KPush n i (x :: r).
+Proof.
+  intros Hr Hst Hg Hm Hg' Hm'. destruct a as [t e].
+  destruct (Nat.eq_dec t x) as [e0|ne].
+  - subst t. destruct (step_self_susp s x e s' th Hst Hg Hm) as (th2 & Hg2 & Hm2).
+    rewrite Hg' in Hg2. inversion Hg2; subst th2. contradiction.
+  - destruct (step_other s t e s' x th Hst ne Hg) as [Hsame | (_ & Hnew & He & thu & n & i & r & Hgu & Hmu)].
+    + rewrite Hg' in Hsame. inversion Hsame; subst th'. contradiction.
+    + rewrite Hg' in Hnew. inversion Hnew; subst th'.
+      destruct (waker_after_n s t thu Hr Hgu) as (Hl & HD & _); [rewrite Hmu; reflexivity|].
+      split; [exact Hl|]. split; [exact HD|]. split; [reflexivity|].
+      exists t, thu, n, i, r. subst e. repeat split; assumption.
+Qed.
+
+(** the assertion after myth_block_on_queue in the wait loop: a woken thread sees low = N *)
+Theorem woken_sees_n s t th : jc_reachable s ->
+  get_thread s t = Some th -> reg th = true -> main th <> Susp -> low s = jn s.
+Proof.
+  intros Hr Hg Hreg Hm. pose proof (inv_reachable s Hr) as HI. pose proof HI as (G & T).
+  destruct (T t th Hg) as (_ & _ & T3 & _). rewrite (low_eq s HI).
+  destruct (T3 Hreg) as [a|b]; [contradiction | exact b].
+Qed.
+
+(* ------------------------------------------------------------------------------------ *)
+(** * C07_all_released *)
+
+Lemma sumf_zero_elem f l t th : (forall x, 0 <= f x) -> sumf f l = 0 -> nth_error l t = Some th -> f th = 0.
+Proof.
+  intros Hf H0 Hg. pose proof (sumf_ge_elem f l t th Hf Hg). pose proof (Hf th). lia.
+Qed.
+
+(** once the N-th decrementer has left the wake-up loops (nobody is inside them and the low
+    field is N), every registered thread has been pushed: the queue is empty, no enqueue is
+    pending, nobody is suspended *)
+Theorem all_released s : jc_reachable s -> low s = jn s ->
+  (forall t th, get_thread s t = Some th -> waker (main th) = false) ->
+  sq s = [] /\ gU s = nreg s /\
+  forall t th, get_thread s t = Some th -> suspended th = false /\ cb th = CbNone.
+Proof.
+  intros Hr Hlow Hnw. pose proof (inv_reachable s Hr) as HI. pose proof HI as (G & T).
+  rewrite (low_eq s HI) in Hlow.
+  assert (Hnp : 0 <= npend s) by (apply sumf_nonneg; intros x; apply pendz_bounds).
+  assert (Hcore : gU s = nreg s /\ fheld s = []).
+  { destruct (gF s) as [f|] eqn:EF.
+    - destruct (iv_final s G f EF) as (_ & th & Hg & Hph).
+      pose proof (Hnw f th Hg) as Hw. unfold fphase in Hph.
+      split.
+      + destruct (main th); try discriminate; exact Hph.
+      + unfold fheld. rewrite EF. cbn [fheldl]. unfold get_thread in Hg. rewrite Hg.
+        apply held_nonwaker. exact Hw.
+    - destruct (iv_nofinal s G EF) as (H0 & H1). rewrite H0, (H1 Hlow).
+      split; [reflexivity|]. unfold fheld. rewrite EF. reflexivity. }
+  destruct Hcore as (HU & Hheld).
+  pose proof (iv_count s G) as Hc. rewrite Hheld, HU in Hc. change (lenz []) with 0 in Hc.
+  pose proof (lenz_nonneg (sq s)) as Hq.
+  assert (Hq0 : sq s = []).
+  { destruct (sq s) as [|x r]; [reflexivity|]. rewrite lenz_cons in *. pose proof (lenz_nonneg r). lia. }
+  assert (Hp0 : npend s = 0) by lia.
+  split; [exact Hq0|]. split; [exact HU|].
+  intros t th Hg.
+  assert (Hcb : cb th = CbNone).
+  { pose proof (sumf_zero_elem pendz (thr s) t th (fun x => proj1 (pendz_bounds x)) Hp0 Hg) as Hz.
+    unfold pendz in Hz. destruct (cb th); [reflexivity | discriminate]. }
+  split; [|exact Hcb].
+  unfold suspended. destruct (main th) eqn:Hm; try reflexivity.
+  destruct (T t th Hg) as (_ & T2 & _). destruct (T2 Hm) as (_ & [c | [c | c]]).
+  - rewrite Hcb in c. discriminate.
+  - rewrite Hq0 in c. destruct c.
+  - rewrite Hheld in c. destruct c.
+Qed.
+
+(* ------------------------------------------------------------------------------------ *)
+(** * C07_late_wait_immediate *)
+
+(** low = N is stable *)
+Theorem low_n_stable s a s' : jc_reachable s -> low s = jn s -> step s a = Some s' -> low s' = jn s'.
+Proof.
+  intros Hr Hlow Hst.
+  assert (Hr' : jc_reachable s') by (eapply reach_step; eassumption).
+  pose proof (inv_reachable s Hr) as HI. pose proof (inv_reachable s' Hr') as HI'.
+  rewrite (low_eq s HI) in Hlow. rewrite (low_eq s' HI').
+  destruct (step_mono s a s' Hst) as (Pn & _ & _ & HD & _).
+  destruct HI' as (G' & _). pose proof (iv_dec s' G'). lia.
+Qed.
+
+Lemma low_n_run s sched : jc_reachable s -> low s = jn s ->
+  jc_reachable (run step sched s) /\ low (run step sched s) = jn (run step sched s).
+Proof.
+  revert s. induction sched as [|a sched IH]; intros s Hr Hlow; cbn [run fold_left].
+  - split; assumption.
+  - unfold exec1. destruct (step s a) as [s1|] eqn:E.
+    + apply IH; [eapply reach_step; eassumption | eapply low_n_stable; eassumption].
+    + apply IH; assumption.
+Qed.
+
+(** the first read of a Wait that finds low = N returns 0 and changes nothing shared *)
+Theorem late_wait_read s t th : low s = jn s ->
+  get_thread s t = Some th -> main th = WRead ->
+  tick s t = Some (set_thread s t (set_main th (Done Wait 0))).
+Proof.
+  intros Hlow Hg Hm. unfold tick. rewrite Hg, Hm. unfold low in Hlow. rewrite Hlow, Z.eqb_refl.
+  unfold put. rewrite Hg. reflexivity.
+Qed.
+
+(** steps of other threads do not disturb a thread that is not suspended *)
+Lemma run_others_frame sched : forall s t th, (forall a, In a sched -> fst a <> t) ->
+  get_thread s t = Some th -> main th <> Susp -> get_thread (run step sched s) t = Some th.
+Proof.
+  induction sched as [|a sched IH]; intros s t th Hno Hg Hm; cbn [run fold_left]; [exact Hg|].
+  apply IH; try assumption.
+  - intros b Hb. apply Hno. right. exact Hb.
+  - unfold exec1. destruct (step s a) as [s1|] eqn:E; [|exact Hg].
+    destruct a as [u e]. assert (Hu : u <> t) by (apply (Hno (u, e)); left; reflexivity).
+    destruct (step_other s u e s1 t th E Hu Hg) as [ok | (bad & _)]; [exact ok | contradiction].
+Qed.
+
+(** a Wait called when low = N: whatever the other threads do in between (any schedule of
+    theirs), the caller's first step returns 0 without registering and without touching the
+    word or the queue *)
+Theorem late_wait_immediate s t s1 sched : jc_reachable s -> low s = jn s ->
+  call s t Wait = Some s1 -> (forall a, In a sched -> fst a <> t) ->
+  let s2 := run step sched s1 in
+  exists th s3, get_thread s2 t = Some th /\ main th = WRead /\
+    tick s2 t = Some s3 /\ get_thread s3 t = Some (set_main th (Done Wait 0)) /\
+    word s3 = word s2 /\ sq s3 = sq s2 /\ cb th = CbNone.
+Proof.
+  intros Hr Hlow Hcall Hno s2.
+  assert (Hst : step s (t, ECall Wait) = Some s1) by exact Hcall.
+  assert (Hr1 : jc_reachable s1) by (eapply reach_step; [exact Hr | exact Hst]).
+  assert (Hlow1 : low s1 = jn s1) by (exact (low_n_stable s _ s1 Hr Hlow Hst)).
+  destruct (low_n_run s1 sched Hr1 Hlow1) as (Hr2 & Hlow2). fold s2 in Hr2, Hlow2.
+  unfold call in Hcall. destruct (get_thread s t) as [th0|] eqn:Hg0; [|discriminate].
+  destruct (main th0) eqn:Hm0; try discriminate. destruct (cb th0) eqn:Hc0; try discriminate.
+  inversion Hcall; subst s1; clear Hcall.
+  set (th := set_main th0 WRead).
+  assert (Hg1 : get_thread (set_thread s t th) t = Some th).
+  { unfold get_thread, set_thread. sred. apply (nth_upd_same _ _ _ th0). exact Hg0. }
+  assert (Hg2 : get_thread s2 t = Some th).
+  { unfold s2. apply run_others_frame; [exact Hno | exact Hg1 | discriminate]. }
+  exists th, (set_thread s2 t (set_main th (Done Wait 0))).
+  split; [exact Hg2|]. split; [reflexivity|].
+  split; [apply late_wait_read; [exact Hlow2 | exact Hg2 | reflexivity]|].
+  split; [unfold get_thread, set_thread; sred; apply (nth_upd_same _ _ _ th); exact Hg2|].
+  split; [reflexivity|]. split; [reflexivity | exact Hc0].
+Qed.
+
+(* ------------------------------------------------------------------------------------ *)
+(** * C07_quiescent_no_sleeper *)
+
+(** nothing can move: no callback step is enabled and every enabled main step is the
+    queue-empty spin of the wake-up loop (which leaves the state unchanged) *)
+Definition quiescent (s : state) : Prop :=
+  forall t, cbtick s t = None /\ (tick s t = None \/ tick s t = Some s).
+
+Lemma sumf_pos_exists f l : 0 < sumf f l -> exists t th, nth_error l t = Some th /\ 0 < f th.
+Proof.
+  induction l as [|y r IH]; cbn [sumf]; intros H; [lia|].
+  destruct (Z_lt_le_dec 0 (f y)) as [pos|npos].
+  - exists O, y. split; [reflexivity | exact pos].
+  - destruct IH as (t & th & Hg & Hp); [lia|]. exists (S t), th. split; assumption.
+Qed.
+
+(** the wake-up loops never block: a push step is always enabled *)
+Theorem push_enabled s t th n i rest : jc_reachable s ->
+  get_thread s t = Some th -> main th = KPush n i rest ->
+  exists s', tick s t = Some s' /\ gU s' = gU s + 1.
+Proof.
+  intros Hr Hg Hm. pose proof (inv_reachable s Hr) as HI. pose proof HI as (G & T).
+  destruct (T t th Hg) as (_ & _ & _ & T4). unfold tloc in T4. rewrite Hm in T4.
+  destruct T4 as (HF & Hi0 & Hi & Hin).
+  destruct rest as [|x r]; [change (lenz []) with 0 in Hi; lia|].
+  assert (Eheld : fheld s = x :: r).
+  { unfold fheld. rewrite HF. cbn [fheldl]. unfold get_thread in Hg. rewrite Hg, Hm. reflexivity. }
+  assert (Hxm : In x (sq s ++ fheld s)) by (rewrite Eheld; apply in_or_app; right; left; reflexivity).
+  destruct (iv_members s G x Hxm) as (thx & Hgx & Hmx & _).
+  assert (Hxt : x <> t).
+  { intros e. subst x. rewrite Hg in Hgx. inversion Hgx; subst thx. rewrite Hm in Hmx. discriminate. }
+  assert (Hg1 : nth_error (upd (thr s) x (set_main thx WRead)) t = Some th).
+  { rewrite nth_upd_other by exact Hxt. exact Hg. }
+  unfold tick. rewrite Hg, Hm. unfold wake. rewrite Hgx, Hmx.
+  destruct (i + 1 <? n); unfold put;
+    change (get_thread (g_push (set_thread s x (set_main thx WRead))) t)
+      with (nth_error (upd (thr s) x (set_main thx WRead)) t);
+    rewrite Hg1; eexists; (split; [reflexivity | unfold gU; sred; reflexivity]).
+Qed.
+
+Theorem quiescent_no_sleeper s : jc_reachable s -> low s = jn s -> quiescent s ->
+  sq s = [] /\ forall t th, get_thread s t = Some th -> suspended th = false /\ cb th = CbNone.
+Proof.
+  intros Hr Hlow Hq. pose proof (inv_reachable s Hr) as HI. pose proof HI as (G & T).
+  assert (Hnw : forall t th, get_thread s t = Some th -> waker (main th) = false).
+  { intros t th Hg. destruct (waker (main th)) eqn:Hw; [exfalso | reflexivity].
+    destruct (T t th Hg) as (_ & _ & _ & T4). unfold tloc in T4.
+    destruct (Hq t) as (_ & Htick).
+    destruct (main th) eqn:Hm; try discriminate.
+    - (* KDeq *)
+      destruct T4 as (HF & Hi & Hin).
+      destruct (iv_final s G t HF) as (_ & thf & Hgf & Hph).
+      rewrite Hg in Hgf. inversion Hgf; subst thf. rewrite Hm in Hph. cbn [fphase] in Hph.
+      destruct Hph as (Hn & HU).
+      destruct (sq s) as [|x r] eqn:Eq.
+      + (* queue empty: some enqueue is pending, its callback step is enabled *)
+        pose proof (iv_count s G) as Hc.
+        assert (Eheld : fheld s = acc).
+        { unfold fheld. rewrite HF. cbn [fheldl]. unfold get_thread in Hg. rewrite Hg, Hm. reflexivity. }
+        rewrite Eq, Eheld, HU in Hc. change (lenz []) with 0 in Hc.
+        assert (Hpos : 0 < npend s) by lia.
+        destruct (sumf_pos_exists pendz (thr s) Hpos) as (u & thu & Hgu & Hpu).
+        destruct (Hq u) as (Hcbu & _). unfold cbtick, get_thread in Hcbu. rewrite Hgu in Hcbu.
+        unfold pendz in Hpu. destruct (cb thu); [lia | discriminate].
+      + (* queue non-empty: the dequeue changes the queue *)
+        unfold tick in Htick. rewrite Hg, Hm, Eq in Htick.
+        assert (Hne : forall s1, sq s1 = r -> Some s1 <> Some s).
+        { intros s1 H1 H2. inversion H2; subst s1. rewrite Eq in H1.
+          apply (f_equal (@length nat)) in H1. cbn [length] in H1. lia. }
+        destruct (i + 1 <? n); unfold put in Htick; norm_get Htick s t; rewrite Hg in Htick;
+          (destruct Htick as [H|H]; [discriminate | eapply Hne; [|exact H]; reflexivity]).
+    - (* KPush *)
+      destruct (push_enabled s t th n i rest Hr Hg Hm) as (s' & Hs' & HU').
+      rewrite Hs' in Htick. destruct Htick as [H|H]; [discriminate|].
+      inversion H; subst s'. lia. }
+  destruct (all_released s Hr Hlow Hnw) as (Hq0 & _ & Hall). split; assumption.
+Qed.
+
+(* ------------------------------------------------------------------------------------ *)
+(** * C07_excess_unreachable *)
+
+(** programs that issue at most N decrements never take the exit(1) branch *)
+Theorem excess_unreachable s : jc_reachable s -> gC s <= jn s ->
+  forall t, in_excess s t = false.
+Proof.
+  intros Hr Hc t. pose proof (inv_reachable s Hr) as (G & T).
+  unfold in_excess. destruct (get_thread s t) as [th|] eqn:Hg; [|reflexivity].
+  destruct (main th) eqn:Hm; try reflexivity.
+  destruct (T t th Hg) as (_ & _ & _ & T4). unfold tloc in T4. rewrite Hm in T4. lia.
+Qed.
+
+(** and the decrement count of the word equals the number of completed decrements then *)
+Theorem dec_count_budget s : jc_reachable s -> gD s + ninfl s <= gC s /\ 0 <= ninfl s.
+Proof.
+  intros Hr. pose proof (inv_reachable s Hr) as (G & T). split; [apply (iv_budget s G)|].
+  apply sumf_nonneg. intros x. apply inflz_bounds.
+Qed.
+
+(* ------------------------------------------------------------------------------------ *)
+(** * strict execution of a schedule (for the non-vacuity examples) *)
+
+Fixpoint run_strict (sched : list (nat * ev)) (s : state) : option state :=
+  match sched with
+  | [] => Some s
+  | a :: r => match step s a with Some s' => run_strict r s' | None => None end
+  end.
+
+Lemma run_strict_reachable sched : forall s s', jc_reachable s -> run_strict sched s = Some s' -> jc_reachable s'.
+Proof.
+  induction sched as [|a r IH]; intros s s' Hr H; cbn [run_strict] in H.
+  - inversion H; subst. exact Hr.
+  - destruct (step s a) as [s1|] eqn:E; [|discriminate].
+    apply (IH s1); [eapply reach_step; eassumption | exact H].
+Qed.
+
+Definition mains (s : state) : list pc := map main (thr s).
+
+(* ---- concrete schedules for the non-vacuity examples (N = 2, four threads) ---- *)
+Definition xW (t : nat) : nat * ev := (t, ECall Wait).
+Definition xD (t : nat) : nat * ev := (t, ECall Dec).
+Definition xT (t : nat) : nat * ev := (t, ETick).
+Definition xC (t : nat) : nat * ev := (t, ECbTick).
+Definition xR (t : nat) : nat * ev := (t, ERet 0).
+
+(** t0 waits and falls asleep; t2 decrements; t1 reads the word (low = 1) and is about to
+    announce itself when t3 performs the final decrement: t1's CAS fails, its second read
+    sees low = 2 and it returns without ever sleeping; t3 dequeues and pushes t0. *)
+Definition sched_race : list (nat * ev) :=
+  [xW 0; xT 0; xT 0; xC 0;
+   xD 2; xT 2; xT 2; xR 2;
+   xW 1; xT 1;
+   xD 3; xT 3; xT 3;
+   xT 1; xT 1; xR 1;
+   xT 3; xT 3; xR 3;
+   xT 0; xR 0]%nat.
+
+(** t0 has registered but its enqueue callback has not run yet when the final decrementer t3
+    starts dequeuing: t3 spins on the empty queue (the state does not change) until the
+    callback has enqueued t0. *)
+Definition sched_spin : list (nat * ev) :=
+  [xW 0; xT 0; xT 0;
+   xD 2; xT 2; xT 2; xR 2;
+   xD 3; xT 3; xT 3; xT 3; xT 3; xC 0; xT 3; xT 3; xR 3; xT 0; xR 0]%nat.
+
+Definition go (n : Z) (nt : nat) (sched : list (nat * ev)) : option state :=
+  match init_state n nt with Some s => run_strict sched s | None => None end.
+
+Definition view (o : option state) : option (Z * list nat * list pc) :=
+  match o with Some s => Some (word s, sq s, mains s) | None => None end.
+
+Lemma go_reachable n nt sched s : representable n nt = true -> go n nt sched = Some s -> jc_reachable s.
+Proof.
+  unfold go. intros Hrep H. destruct (init_state n nt) as [s0|] eqn:E; [|discriminate].
+  apply (run_strict_reachable sched s0 s); [|exact H].
+  apply reach_init. exists n, nt. split; assumption.
+Qed.
